@@ -270,11 +270,14 @@ func c10(r *report.Run) {
 		if strings.Join(rec.events, " ") != strings.Join(want, " ") {
 			// witness: the smallest description = kind/slot of the first differing event
 			r.Report(report.Violation{Sub: "walk-order", Kind: "events-differ", Witness: c10FirstDiff(nodes, ids, want, rec.events), Order: order,
-				Detail: map[string]interface{}{"tree": c10Dump(root), "built_as": desc, "expected_events": strings.Join(want, " "), "observed_events": strings.Join(rec.events, " ")}})
+				Detail: map[string]interface{}{"tree": trunc(c10Dump(root)), "built_as": desc, "expected_events": trunc(strings.Join(want, " ")), "observed_events": trunc(strings.Join(rec.events, " "))}})
 			return
 		}
-		// replacement at every position, on Exit and on Enter
+		// replacement at every position, on Exit and on Enter (for the long chains: at the two ends and in the middle)
 		for pi, target := range nodes {
+			if len(nodes) > 300 && pi != 0 && pi != len(nodes)-1 && pi != len(nodes)/2 && pi != 1001 {
+				continue
+			}
 			for _, onEnter := range []bool{false, true} {
 				positions++
 				// rebuild a fresh copy of the tree (walks mutate it): re-run the builder is costly, so patch back afterwards
@@ -322,6 +325,16 @@ func c10(r *report.Run) {
 		}
 	}
 	c10Build(depth, checkTree)
+	// long chains: the parser builds left-associative operator chains and postfix chains in a loop, so a chain of n
+	// terms is a legal tree of depth n; every node of it is entered and exited once
+	for _, n := range []int{10, 900, 1100, 2500} {
+		for _, unit := range []string{" + a", ".f", "[1]", " or a"} {
+			src := "a" + strings.Repeat(unit, n)
+			if t, err := parser.Parse(src); err == nil {
+				checkTree(t.Node, fmt.Sprintf("parsed: a%s x%d", unit, n))
+			}
+		}
+	}
 	// trees as the parser builds them (the short conditional a ?: b shares one node between two slots)
 	var parsed int64
 	seqLen := 3
